@@ -555,7 +555,7 @@ def c19_generate(seed, tier):
     family = cfgr.choice(["same_object", "same_spec", "same_params",
                           "same_params", "mixed", "mixed_layout",
                           "bench_seeded_unseeded", "same_layout_rewired",
-                          "near_equal_numbers"])
+                          "near_equal_numbers", "same_layout_resized"])
     bench_name = cfgr.choice(configs.GEN_BENCH[:5])
     specs = []
     share = []
@@ -623,6 +623,21 @@ def c19_generate(seed, tier):
                     if i != j and T[i][j] == 1}
             specs.append({"kind": "yaml", "text": docgen.emit(d)})
             share.append(None)
+        elif family == "same_layout_resized":
+            # same names, number of subnets and largest subnet (= same vector
+            # layout), other subnet sizes: another number of hosts and
+            # another host numbering
+            from . import docgen
+            if k == 0:
+                rs_doc = docgen.gen_doc(cfgr, max_subnets=4, step_limit=None)
+                while len(rs_doc["subnets"]) < 2:
+                    rs_doc = docgen.gen_doc(cfgr, max_subnets=4,
+                                            step_limit=None)
+                d = rs_doc
+            else:
+                d = docgen.gen_doc(cfgr, like=rs_doc, step_limit=None)
+            specs.append({"kind": "yaml", "text": docgen.emit(d)})
+            share.append(None)
         elif family == "near_equal_numbers":
             # the same generated scenario twice, but the second one's exploit
             # probabilities and costs differ in the third decimal
@@ -654,7 +669,7 @@ def c19_generate(seed, tier):
     shared_gen = family == "same_params" and cfgr.random() < 0.5
     same_layout = family in ("same_object", "same_spec", "same_params",
                              "bench_seeded_unseeded", "same_layout_rewired",
-                             "near_equal_numbers")
+                             "near_equal_numbers", "same_layout_resized")
     n_ops = rng.choice([10, 20, 30, 40, 60]) * \
         (2 if tier == "thorough" else 1)
     # scratch worlds to generate model-guided ops per environment
@@ -831,8 +846,11 @@ def c19_check(trace, tier, res):
         # who was the last constructed environment before op i?
         last_con = {}
         cur = None
+        built = {j for (j, _, _) in layouts["hist"]}
         for i, op in enumerate(ops):
-            if op["op"] == "construct":
+            if op["op"] == "construct" and i in built:
+                # (a construction that was refused - the document or the
+                # parameters were invalid - installs no layout)
                 cur = op["env"]
             last_con[i] = cur
 
